@@ -15,5 +15,6 @@ import SquidModel.Properties.C53
 #print axioms SquidModel.C53.measured_tree_fits
 #print axioms SquidModel.C53.gen_constants_match
 #print axioms SquidModel.C53.constructor_agrees_small
+#print axioms SquidModel.C53.leafTruncate_never_undefined
 #print axioms SquidModel.C53.scheduler_runs_are_reachable
 #print axioms SquidModel.C53.createFull_shift64_counterexample
